@@ -1,0 +1,14 @@
+//go:build !verif
+
+// Package verifhook provides named scheduling/observation points for the runtime
+// verification harness. Without the "verif" build tag it is a no-op.
+package verifhook
+
+// Enabled reports whether the package was built with the verif tag.
+const Enabled = false
+
+// Set does nothing without the verif tag.
+func Set(func(name string)) {}
+
+// Point does nothing without the verif tag.
+func Point(string) {}
